@@ -969,9 +969,20 @@ def probe():
     out.append(("solver-accepts-underdetermined", ok, f"solve x+y=5 for x,y -> {res!r}"))
     ok, res = returns(lambda: solve(["x"], [(x, 5), (x, 6)]))
     out.append(("solver-accepts-inconsistent", ok, f"solve x=5, x=6 -> {res!r}"))
-    ok, res = returns(lambda: solve(["x"], [(p.Sum((x, 1)), 2)]))
-    out.append(("solver-overwrites-two-sided-term", ok and res.get(x) != 1,
-                f"solve x+1=2 -> {res!r}"))
+    # repaired (0e8d81e): terms on both sides of one equation accumulate; fails if it returns
+    two_sided = [([(p.Sum((x, 1)), 0)], -1), ([(p.Sum((x, 1)), 2)], 1),
+                 ([(p.Product((2, x)), p.Sum((x, 3)))], 3), ([(p.Sum((x, y)), p.Sum((p.Product((2, y)), 3)))], None)]
+    bad = []
+    for eqs, want in two_sided:
+        ok, res = returns(lambda eqs=eqs: solve(["x"], eqs))
+        val = res.get(x) if ok else res
+        if want is None:
+            good = ok and val == p.Sum((3, y)) or ok and val == p.Sum((y, 3))
+        else:
+            good = ok and val == want
+        if not good:
+            bad.append(f"solve {eqs} for x -> {res!r}")
+    out.append(("solver-overwrites-two-sided-term", bool(bad), "; ".join(bad) or "all two-sided systems solved correctly"))
     ok, res = returns(lambda: CC(["x"])(p.Subscript(a, x)))
     out.append(("coefficient-mentions-target:leaf", ok,
                 f"CoefficientCollector(['x'])(a[x]) -> {res!r}"))
@@ -1002,8 +1013,8 @@ PROP = Prop(
     assumptions=["coeffs_sound: no bool/float constants or keyword calls in the expression "
                  "(Python == is then structural on keys); every reciprocal 1/d introduced by a "
                  "Quotient evaluates exactly",
-                 "solver theorems are stated on the integer matrix; the assembly of the matrix "
-                 "from the equations is tied by correspondence and the substitution oracle"],
+                 "solve_affine_sound_partial: equation sides and parameters are simple trees whose "
+                 "coefficients are plain ints; reduced matrix of single-entry shape (reducedOK)"],
     level_text="Lean theorems (unbounded trees / matrices): the dictionary returned by the "
                "coefficient collector as coded evaluates, term by term, to the value of the input; "
                "products of two target-dependent factors and targets in denominators/exponents are "
@@ -1011,9 +1022,10 @@ PROP = Prop(
                "preserve the rational solution set; the values read off by the solver satisfy every "
                "row identically in the parameters when the reduced matrix has the single-entry "
                "shape. Tied to the real code by three correspondence streams.",
-    level_note="Partial: the solver accepts underdetermined and inconsistent systems and overwrites "
-               "two-sided terms (known findings, negation witnesses proved); composite leaves hide "
-               "targets; floats are outside the exact model.",
+    level_note="Partial: the solver accepts underdetermined and inconsistent systems (known findings, "
+               "negation witnesses proved); composite leaves hide targets; floats are outside the "
+               "exact model. The two-sided overwrite in the matrix assembly is repaired (0e8d81e): "
+               "the assembled row is proved to represent lhs - rhs.",
     technique="Lean 4 proofs about the dictionary/elimination model + differential correspondence "
               "+ exact rational interpreter and independent Fraction elimination",
     design_ref="DESIGN.md §4 C15",
